@@ -329,6 +329,25 @@ func packedBodyLen(q aQ, u aR) int {
 	return len(b)
 }
 
+// packedHitLens: packed length of the body a cache entry for (q, u) stores, and
+// of the one it prepares for DO=0 clients (equal when nothing is stripped).
+func packedHitLens(q aQ, u aR) string {
+	full := packedBodyLen(q, u)
+	su := u
+	strip := func(rs []aRR) []aRR {
+		var out []aRR
+		for _, x := range rs {
+			if x.kind == 'S' || x.kind == 'N' || x.kind == '3' {
+				continue
+			}
+			out = append(out, x)
+		}
+		return out
+	}
+	su.an, su.ns = strip(u.an), strip(u.ns)
+	return fmt.Sprintf("%d,%d", full, packedBodyLen(q, su))
+}
+
 func protoPick(r *vlib.R) string {
 	return vlib.Pick(r, []string{"udp", "udp", "udp", "tcp", "tcp", "doh", "doq"})
 }
@@ -548,6 +567,9 @@ func gen(r *vlib.R, n int, tier string, emit func(string)) {
 				// allows it, message route otherwise), behind the real edns
 				q := genQ(r)
 				q.opcode, q.rd, q.mask, q.opt.ver = 0, true, 0, 0
+				if _, known := dns.TypeToString[uint16(q.qtype)]; !known {
+					q.qtype = int(dns.TypeA) // the cache drops a type it cannot name without a reply (C11's business)
+				}
 				var keep []aOption
 				for _, o := range q.opt.opts {
 					if o.code != optECS {
@@ -568,7 +590,24 @@ func gen(r *vlib.R, n int, tier string, emit func(string)) {
 				if u.opt.same {
 					u.opt = aOpt{present: true, udp: 1232, opts: genUpstreamOptions(r)}
 				}
-				emitN(fmt.Sprintf("edns hit %s %s %s %s", vlib.Pick(r, []string{"d", "w"}), proto, q, u))
+				// which records of a response the cache admits (owner in the
+				// alias chain of the question) is C03/C07's business: every record
+				// here is owned by the question name, and a NOERROR answer is not empty
+				u.ra = true
+				for _, sec := range []*[]aRR{&u.an, &u.ns, &u.ex} {
+					for i := range *sec {
+						if (*sec)[i].kind != 'O' && (*sec)[i].owner != 'q' {
+							(*sec)[i].owner = 'q'
+							measure(&(*sec)[i], q.id)
+						}
+					}
+				}
+				if u.rcode == 0 && len(u.an) == 0 {
+					x := aRR{kind: 'A', id: 99, p: 12, owner: 'q'}
+					measure(&x, q.id)
+					u.an = []aRR{x}
+				}
+				emitN(fmt.Sprintf("edns hit %s %s %s %s %s", vlib.Pick(r, []string{"d", "w"}), proto, packedHitLens(q, u), q, u))
 			case x < 4:
 				q := genQ(r)
 				q.opcode = 0
